@@ -1,1 +1,253 @@
-//! (stub)
+//! Naive whole-file FASTA / FASTQ parsers: the oracle for C11.
+//!
+//! Nothing here is shared with noodles: the file is cut into lines at `\n`, one trailing `\r` is
+//! removed from each line, a line starting with `>` opens a record, every other line belongs to the
+//! sequence of the open record. The faidx values follow the `samtools faidx` definition of the
+//! five columns (NAME, LENGTH, OFFSET, LINEBASES, LINEWIDTH): offset of the first base, bases in
+//! the first sequence line, bytes in the first sequence line including its terminator.
+
+#[derive(Clone, Debug, PartialEq, Eq)]
+pub struct NaiveLine {
+    /// file offset of the first byte of the line
+    pub start: u64,
+    /// bytes that are bases (terminator removed)
+    pub bases: usize,
+    /// bytes in the file, terminator included (the last line of a file may have none)
+    pub width: usize,
+}
+
+#[derive(Clone, Debug, PartialEq, Eq)]
+pub struct NaiveRecord {
+    pub name: Vec<u8>,
+    pub description: Option<Vec<u8>>,
+    /// offset of the `>`
+    pub def_offset: u64,
+    /// offset of the first byte after the definition line
+    pub seq_offset: u64,
+    /// all bases, terminators removed
+    pub seq: Vec<u8>,
+    /// every line between the definition line and the next definition line / end of file,
+    /// blank lines included
+    pub lines: Vec<NaiveLine>,
+}
+
+#[derive(Clone, Debug, PartialEq, Eq)]
+pub struct NaiveFai {
+    pub name: Vec<u8>,
+    pub length: u64,
+    pub offset: u64,
+    pub line_bases: u64,
+    pub line_width: u64,
+}
+
+/// How well a record fits the faidx model "all lines but the last have the same length".
+#[derive(Clone, Copy, Debug, PartialEq, Eq)]
+pub enum Shape {
+    /// uniform lines, last line not longer (bases and bytes) than the first, no blank lines:
+    /// an indexer must accept it
+    Strict,
+    /// uniform once trailing blank lines are ignored (or the last line has a longer terminator):
+    /// the arithmetic of the index is still right, but an indexer may be pickier
+    Lenient,
+    /// an interior (or first) line differs from the first line in bases or bytes, or the last line
+    /// has more bases than the first: no fai record can describe it
+    Ragged,
+    /// no bases in the first line
+    Empty,
+}
+
+fn is_ws(b: u8) -> bool {
+    matches!(b, b' ' | b'\t' | b'\n' | b'\r' | 0x0c)
+}
+
+fn trim(mut s: &[u8]) -> &[u8] {
+    while let [first, rest @ ..] = s {
+        if is_ws(*first) {
+            s = rest;
+        } else {
+            break;
+        }
+    }
+    while let [rest @ .., last] = s {
+        if is_ws(*last) {
+            s = rest;
+        } else {
+            break;
+        }
+    }
+    s
+}
+
+/// (start offset, content without terminator, bytes including terminator)
+pub fn split_lines(bytes: &[u8]) -> Vec<(u64, &[u8], usize)> {
+    let mut out = Vec::new();
+    let mut s = 0usize;
+    while s < bytes.len() {
+        let (e, width) = match bytes[s..].iter().position(|b| *b == b'\n') {
+            Some(i) => (s + i, i + 1),
+            None => (bytes.len(), bytes.len() - s),
+        };
+        let mut content = &bytes[s..e];
+        if let [rest @ .., b'\r'] = content {
+            content = rest;
+        }
+        out.push((s as u64, content, width));
+        s += width;
+    }
+    out
+}
+
+pub fn parse(bytes: &[u8]) -> Result<Vec<NaiveRecord>, String> {
+    let mut out: Vec<NaiveRecord> = Vec::new();
+    for (start, content, width) in split_lines(bytes) {
+        if content.first() == Some(&b'>') {
+            let body = &content[1..];
+            let cut = body.iter().position(|b| is_ws(*b)).unwrap_or(body.len());
+            let name = body[..cut].to_vec();
+            if name.is_empty() {
+                return Err(format!("definition at {start} has no name"));
+            }
+            let desc = trim(&body[cut..]);
+            out.push(NaiveRecord {
+                name,
+                description: if desc.is_empty() { None } else { Some(desc.to_vec()) },
+                def_offset: start,
+                seq_offset: start + width as u64,
+                seq: Vec::new(),
+                lines: Vec::new(),
+            });
+        } else {
+            let Some(rec) = out.last_mut() else {
+                return Err(format!("sequence line at {start} before any definition"));
+            };
+            rec.seq.extend_from_slice(content);
+            rec.lines.push(NaiveLine { start, bases: content.len(), width });
+        }
+    }
+    Ok(out)
+}
+
+impl NaiveRecord {
+    pub fn shape(&self) -> Shape {
+        let Some(first) = self.lines.first() else { return Shape::Empty };
+        if first.bases == 0 {
+            return Shape::Empty;
+        }
+        let mut core = self.lines.len();
+        while core > 0 && self.lines[core - 1].bases == 0 {
+            core -= 1;
+        }
+        let blank_tail = core < self.lines.len();
+        let core = &self.lines[..core];
+        let last = core.len() - 1;
+        for l in &core[..last] {
+            if l.bases != first.bases || l.width != first.width {
+                return Shape::Ragged;
+            }
+        }
+        if core[last].bases > first.bases {
+            return Shape::Ragged;
+        }
+        if blank_tail || core[last].width > first.width { Shape::Lenient } else { Shape::Strict }
+    }
+
+    pub fn fai(&self) -> Option<NaiveFai> {
+        let first = self.lines.first()?;
+        Some(NaiveFai {
+            name: self.name.clone(),
+            length: self.seq.len() as u64,
+            offset: self.seq_offset,
+            line_bases: first.bases as u64,
+            line_width: first.width as u64,
+        })
+    }
+
+    /// 1-based closed interval, clipped at the sequence end; `None` when the start lies beyond
+    /// the end.
+    pub fn slice(&self, start: u64, end: Option<u64>) -> Option<&[u8]> {
+        let len = self.seq.len() as u64;
+        if start == 0 || start > len {
+            return None;
+        }
+        let e = end.map(|e| e.min(len)).unwrap_or(len);
+        if e < start {
+            return Some(&[]);
+        }
+        Some(&self.seq[(start - 1) as usize..e as usize])
+    }
+
+    /// Number of non-blank sequence lines.
+    pub fn seq_lines(&self) -> usize {
+        self.lines.iter().filter(|l| l.bases > 0).count()
+    }
+}
+
+// ------------------------------------------------------------------------------------------------
+// FASTQ (strict four-line records)
+
+#[derive(Clone, Debug, PartialEq, Eq)]
+pub struct NaiveFastq {
+    pub name: Vec<u8>,
+    pub description: Vec<u8>,
+    pub seq: Vec<u8>,
+    pub qual: Vec<u8>,
+    /// offset of the first base
+    pub seq_offset: u64,
+    /// bytes of the sequence line including its terminator
+    pub seq_line_width: u64,
+    /// offset of the first quality character
+    pub qual_offset: u64,
+}
+
+/// Four lines per record: `@name[ \t]description`, sequence, `+…`, qualities.
+pub fn parse_fastq(bytes: &[u8]) -> Result<Vec<NaiveFastq>, String> {
+    let mut lines = split_lines(bytes);
+    if lines.len() % 4 == 3 {
+        // an empty quality line without terminator at the very end of the file
+        lines.push((bytes.len() as u64, &bytes[bytes.len()..], 0));
+    }
+    if lines.len() % 4 != 0 {
+        return Err(format!("{} lines is not a multiple of four", lines.len()));
+    }
+    let mut out = Vec::new();
+    for q in lines.chunks(4) {
+        let (s0, def, _) = q[0];
+        if def.first() != Some(&b'@') {
+            return Err(format!("line at {s0} does not start with '@'"));
+        }
+        let body = &def[1..];
+        let cut = body.iter().position(|b| *b == b' ' || *b == b'\t');
+        let (name, description) = match cut {
+            Some(i) => (body[..i].to_vec(), body[i + 1..].to_vec()),
+            None => (body.to_vec(), Vec::new()),
+        };
+        if q[2].1.first() != Some(&b'+') {
+            return Err(format!("line at {} does not start with '+'", q[2].0));
+        }
+        out.push(NaiveFastq {
+            name,
+            description,
+            seq: q[1].1.to_vec(),
+            qual: q[3].1.to_vec(),
+            seq_offset: q[1].0,
+            seq_line_width: q[1].2 as u64,
+            qual_offset: q[3].0,
+        });
+    }
+    Ok(out)
+}
+
+#[cfg(test)]
+mod tests {
+    use super::*;
+
+    #[test]
+    fn basic() {
+        let recs = parse(b">s1\nACGT\n>seq2 desc\r\nAC\r\nG\r\n").unwrap();
+        assert_eq!(recs.len(), 2);
+        assert_eq!(recs[0].fai().unwrap(), NaiveFai { name: b"s1".to_vec(), length: 4, offset: 4, line_bases: 4, line_width: 5 });
+        assert_eq!(recs[1].fai().unwrap(), NaiveFai { name: b"seq2".to_vec(), length: 3, offset: 22, line_bases: 2, line_width: 4 });
+        assert_eq!(recs[1].description.as_deref(), Some(&b"desc"[..]));
+        assert_eq!(recs[1].shape(), Shape::Strict);
+    }
+}
